@@ -14,6 +14,13 @@ CLAIMED = {
          "DESIGN.md §4 C06, §3.1"),
 }
 
+CLAIMED["C12"] = ("SSA value-flow of every error value (locals, captured cells, fields) and path enumeration of the failing edge of every error test; adapter path rule",
+ "Decides that no error value produced on the read path is dropped or tested-and-swallowed in any API-reachable function of db, the root package and the driver, and that no scan adapter can skip a row without delivering it or recording an error. Necessary condition for the property; it cannot show that every fault produces an error value.",
+ "DESIGN.md §4 C12, §3.2")
+CLAIMED["C17"] = ("SSA path enumeration of the done flag through every b-tree iteration level and adapter; bracket rule for the deferred unlock",
+ "Decides that every iteration level returns an inner done=true at once without another callback, that adapters forward the user's answer, that an early stop yields a nil error, and that the unlock is deferred. Together with the traversal order this is the structural content of the property.",
+ "DESIGN.md §4 C17, §3.2")
+
 NA_REASON_NOT_BUILT = "check not built yet in this round; DESIGN.md §4 describes the structural clauses that will be claimed"
 ALL = ["C%02d" % i for i in range(1, 21)]
 
